@@ -1,4 +1,11 @@
 import Gv.Oracle.Seq
+import Gv.Oracle.Bag
+import Gv.Oracle.Rand
+import Gv.Oracle.Sites
+import Gv.Oracle.Clean
+import Gv.Oracle.Stats
+import Gv.Oracle.Dedup
+import Gv.Oracle.Mask
 import Gv.Oracle.Models
 /-!
 oracle: reads lines `<id> \t <impl result> \t <op> \t <arg>...` and prints
@@ -6,7 +13,7 @@ oracle: reads lines `<id> \t <impl result> \t <op> \t <arg>...` and prints
 -/
 open Gv Gv.Oracle
 
-def handlers : List Handler := [SeqOps.handle, Models.handle]
+def handlers : List Handler := [SeqOps.handle, BagOps.handle, RandOps.handle, SitesOps.handle, CleanOps.handle, StatsOps.handle, DedupOps.handle, MaskOps.handle, Models.handle]
 
 def answer (op : String) (args : List String) (impl : String) : Ans :=
   match handlers.findSome? (fun h => h op args impl) with
